@@ -39,6 +39,72 @@ func init() {
 		replayCase{Prop: "C04", Pattern: `newContextForExecution/frame/store/F\|Token\|Val`, Imports: []string{"io", "strings"},
 			Test: twiceHelper + `	check("{% if 1 %}\n\n\nx{% endif %}", Context{}, &Options{TrimBlocks: true})
 	check("a  \t{% if 1 %}x{% endif %}", Context{}, &Options{LStripBlocks: true})`},
+		replayCase{Prop: "C05", Pattern: `tagCycleNode\)\.Execute/frame`, Race: true, Imports: []string{"sync"},
+			Test: `	set := NewSet("replay", &zzLoader{files: map[string]string{"inc.tpl": "x"}})
+	srcs := []string{"{% cycle 1 2 %}"}
+	for _, src := range srcs {
+		tpl, err := set.FromString(src)
+		if err != nil { continue }
+		var wg sync.WaitGroup
+		for g := 0; g < 4; g++ {
+			wg.Add(1)
+			go func() { defer wg.Done(); c := zzContext(); c["name"] = "inc.tpl"; for i := 0; i < 20; i++ { tpl.Execute(c) } }()
+		}
+		wg.Wait()
+	}`},
+		replayCase{Prop: "C05", Pattern: `tagIfchangedNode\)\.Execute/frame`, Race: true, Imports: []string{"sync"},
+			Test: `	set := NewSet("replay", &zzLoader{files: map[string]string{"inc.tpl": "x"}})
+	srcs := []string{"{% ifchanged %}x{% endifchanged %}{% ifchanged a %}y{% endifchanged %}"}
+	for _, src := range srcs {
+		tpl, err := set.FromString(src)
+		if err != nil { continue }
+		var wg sync.WaitGroup
+		for g := 0; g < 4; g++ {
+			wg.Add(1)
+			go func() { defer wg.Done(); c := zzContext(); c["name"] = "inc.tpl"; for i := 0; i < 20; i++ { tpl.Execute(c) } }()
+		}
+		wg.Wait()
+	}`},
+		replayCase{Prop: "C05", Pattern: `newContextForExecution/frame/store/F\|Token\|Val`, Race: true, Imports: []string{"sync"},
+			Test: `	set := NewSet("replay", &zzLoader{files: map[string]string{"inc.tpl": "x"}})
+	set.Options = &Options{TrimBlocks: true, LStripBlocks: true}
+	srcs := []string{"a  {% if a %}\\n\\n  z{% endif %}"}
+	for _, src := range srcs {
+		tpl, err := set.FromString(src)
+		if err != nil { continue }
+		var wg sync.WaitGroup
+		for g := 0; g < 4; g++ {
+			wg.Add(1)
+			go func() { defer wg.Done(); c := zzContext(); c["name"] = "inc.tpl"; for i := 0; i < 20; i++ { tpl.Execute(c) } }()
+		}
+		wg.Wait()
+	}`},
+		replayCase{Prop: "C05", Pattern: `frame/call/\(\*TemplateSet\)\.FromFile`, Race: true, Imports: []string{"sync"},
+			Test: `	set := NewSet("replay", &zzLoader{files: map[string]string{"inc.tpl": "x"}})
+	srcs := []string{"{% include name %}"}
+	for _, src := range srcs {
+		tpl, err := set.FromString(src)
+		if err != nil { continue }
+		var wg sync.WaitGroup
+		for g := 0; g < 4; g++ {
+			wg.Add(1)
+			go func() { defer wg.Done(); c := zzContext(); c["name"] = "inc.tpl"; for i := 0; i < 20; i++ { tpl.Execute(c) } }()
+		}
+		wg.Wait()
+	}`},
+		replayCase{Prop: "C05", Pattern: `/frame/|/guard/|/lock/`, Race: true, Imports: []string{"sync"},
+			Test: `	set := NewSet("replay", &zzLoader{files: map[string]string{"inc.tpl": "x"}})
+	srcs := zzCatalogue
+	for _, src := range srcs {
+		tpl, err := set.FromString(src)
+		if err != nil { continue }
+		var wg sync.WaitGroup
+		for g := 0; g < 4; g++ {
+			wg.Add(1)
+			go func() { defer wg.Done(); c := zzContext(); c["name"] = "inc.tpl"; for i := 0; i < 20; i++ { tpl.Execute(c) } }()
+		}
+		wg.Wait()
+	}`},
 		// generic fallback for any frame violation in a node: render a catalogue of templates twice
 		replayCase{Prop: "C04", Pattern: `/frame/`, Imports: []string{"io", "strings"},
 			Test: twiceHelper + `	for _, src := range zzCatalogue { check(src, zzContext(), nil) }`},
